@@ -152,7 +152,11 @@ def install():
         cm = Dtype.__dict__[nm]
         inner = cm.__func__
         if hasattr(inner, '__wrapped__'):
+            DTYPE_CACHE_PARAMS[nm] = inner.cache_parameters()      # re-created with the code's own parameters by live_caches()
             setattr(Dtype, nm, classmethod(inner.__wrapped__))
+
+
+DTYPE_CACHE_PARAMS = {}
 
 
 def set_format_stub(on: bool):
@@ -196,8 +200,8 @@ def live_caches():
     for nm in ('_create', '_new_from_token'):
         cm = Dtype.__dict__[nm]
         inner = cm.__func__
-        if not hasattr(inner, 'cache_info'):
-            setattr(Dtype, nm, classmethod(functools.lru_cache(CACHE_SIZE)(inner)))
+        if not hasattr(inner, 'cache_info') and nm in DTYPE_CACHE_PARAMS:
+            setattr(Dtype, nm, classmethod(functools.lru_cache(**DTYPE_CACHE_PARAMS[nm])(inner)))
 
 
 def all_caches():
